@@ -131,7 +131,11 @@ package sm3
 //@   let W := SM3W(M, L)
 //@   ensures forall b :: 0 <= b && b < 32 ==> result[b] == sm3byte(W, b)
 //@   modifies d.h, d.x, d.nx, d.len, ghost(dmsg, d), ghost(dlen, d)
-//@   assert before call Write#1: t == SM3T(L) && len(padlen) == SM3T(L) + 8 && forall j :: 0 <= j && j < SM3T(L) + 8 ==> padlen[j] == SM3PADARR(L)[j]
+//@   assert before call Write#1: t == SM3T(L) && len(padlen) == SM3T(L) + 8
+//@   assert before call Write#1: padlen[0] == 128 && forall j :: 0 < j && j < t ==> padlen[j] == 0
+//@   assert before call Write#1: 72057594037927936 * padlen[t] + 281474976710656 * padlen[t + 1] + 1099511627776 * padlen[t + 2] + 4294967296 * padlen[t + 3] + 16777216 * padlen[t + 4] + 65536 * padlen[t + 5] + 256 * padlen[t + 6] + padlen[t + 7] == 8 * L
+//@   assert before call Write#1: forall k :: 0 <= k && k < 8 ==> padlen[t + k] == SM3PADARR(L)[SM3T(L) + k]
+//@   assert before call Write#1: forall j :: 0 <= j && j < SM3T(L) + 8 ==> padlen[j] == SM3PADARR(L)[j]
 //@   assert after call Write#1: d.nx == 0 && ghost(dlen, d) == L + SM3T(L) + 8 && (L + SM3T(L) + 8) % 64 == 0
 //@   assert after call Write#1: 64 * ((L + SM3T(L) + 8) / 64) == L + SM3T(L) + 8
 //@   assert after call Write#1: forall j :: 0 <= j && j < L + SM3T(L) + 8 ==> ghost(dmsg, d)[j] == CAT(M, L, SM3PADARR(L), 0, SM3T(L) + 8)[j]
